@@ -315,6 +315,38 @@ def other_cases(ctx, rng, scale, add, dist, failures):
     from torch import nn
     from vector_quantize_pytorch import SimVQ, ResidualSimVQ, RandomProjectionQuantizer, LatentQuantize
     n = (8 if not ctx.thorough else 60) * scale
+    # RE-ENTRANCY: a read-only forward hook on the codebook (a monitoring probe) runs another, differently shaped image through the same module while the
+    # outer call is in flight: every pixel of the outer call still gets the index of ITS nearest code, in ITS position
+    from vector_quantize_pytorch import VectorQuantize as _VQ
+    for ri in range(3 if not ctx.thorough else 12):
+        try:
+            vq_r = _VQ(dim=3, codebook_size=7, accept_image_fmap=True, heads=[1, 2, 1][ri % 3], codebook_dim=(None if ri % 3 != 1 else 2), use_cosine_sim=(ri % 3 == 2))
+            vq_r.eval()
+            img = torch.randn(2, 3, 6, 4)
+            probe = torch.randn(1, 3, 4, 6)
+            st_r = {'busy': False}
+
+            def hook_r(_m, _i, _o):
+                if not st_r['busy']:
+                    st_r['busy'] = True
+                    try:
+                        with torch.no_grad():
+                            vq_r(probe)
+                    finally:
+                        st_r['busy'] = False
+            with torch.no_grad():
+                o_a, i_a, _ = vq_r(img)
+                hh = vq_r._codebook.register_forward_hook(hook_r)
+                try:
+                    o_b, i_b, _ = vq_r(img)
+                finally:
+                    hh.remove()
+            dist['reentrant_probe_calls'] = dist.get('reentrant_probe_calls', 0) + 1
+            if i_a.shape != i_b.shape or not torch.equal(i_a, i_b) or o_a.shape != o_b.shape or not torch.equal(o_a, o_b):
+                failures.append({'key': 'vq-image:reentrant-probe:indices-differ', 'what': f'VectorQuantize(accept_image_fmap=True) with a forward hook on its codebook that runs a 4x6 probe image through the module during a '
+                                 f'6x4 call: indices {tuple(i_b.shape)} / output {tuple(o_b.shape)} differ from the call without the hook ({tuple(i_a.shape)} / {tuple(o_a.shape)})', 'case': dict(kind='reentrant')})
+        except Exception as ex:
+            failures.append({'key': f'vq-image:reentrant-probe:exception:{type(ex).__name__}', 'what': repr(ex), 'case': dict(kind='reentrant')})
     for ci in range(n):
         # SimVQ (linear or MLP transform), ResidualSimVQ layers
         d = rng.choice([2, 3, 4])
